@@ -267,10 +267,12 @@ func runJoinCase(c JoinCase) *vt.Outcome {
 		return o
 	}
 	// the join's own sorts spilling
-	saved := sortop.MemMaxBytes
-	sortop.MemMaxBytes = 16
-	out, f = run("sort-spill", interleave(l, r, c.Mix), runOpts{})
-	sortop.MemMaxBytes = saved
+	func() {
+		saved := sortop.MemMaxBytes
+		sortop.MemMaxBytes = 16
+		defer func() { sortop.MemMaxBytes = saved }()
+		out, f = run("sort-spill", interleave(l, r, c.Mix), runOpts{})
+	}()
 	if f != nil {
 		o.Fail = f
 		return o
